@@ -273,6 +273,9 @@ def analyze(ctx, want):
             key = ex.deref_val(p, g[3][1])
             la_key_ok = key == TID_NEW and "self.lookaheads" in S.vstr(g[3][0])
             ob("C04.a", "lookahead-looked-up-by-candidate-terminal", bool(la_key_ok), "lookaheads.get(%s) for candidate terminal %s" % (S.vstr(key), S.vstr(TID_NEW)), fd.loc(g[1]))
+        for rule_ in ("C04.e", "C05.b"):
+            ob(rule_, "lookahead-looked-up-for-every-accepting-candidate", bool(get),
+               "an accepting candidate is decided %s its lookahead was looked up (a candidate may only be dismissed after its lookahead, which contributes to its extent, is known)" % ("after" if get else "BEFORE/without"), fd.loc())
         split = p.calls(r"split_at_checked$")
         sat = p.calls(r"CompiledLookahead::satisfies_lookahead$")
         split_v = variant_of(ex, p, split[-1][4]) if split else None
@@ -659,3 +662,51 @@ def check_old_extent(ob, fd, atoms, ext_locals, roles, la, name2local):
         ok = False
     ob("C05.b", "incumbent-side-is-its-stored-extent", ok,
        "the challenger's extent is compared with %s (must be the incumbent's own stored extent)" % names, fd.loc())
+
+
+
+def lookahead_wiring(ctx, rules=("C04.f",)):
+    """C04.f: the condition checked for terminal T in a mode is the one configured on the pattern with token type T:
+    every add_lookahead(T, L) in CompiledDfa::try_from_patterns has T = terminal_id(item) and L = the Ok payload of a
+    try_from_lookahead(lookahead(item), ..) call made for the SAME item on the same path (not a value fetched from a
+    table, a clone of another pattern's lookahead, or a value compiled from something else); add_lookahead stores
+    exactly (T, L) in the table find_from reads."""
+    import re
+    from .common import BaseModel, run_fn, ret_paths, variant_of
+    F = ctx.facts
+    def ob(name, ok, detail, loc):
+        for r in rules:
+            ctx.ob(r, name, ok, detail, loc)
+    cp = F.fn(r"CompiledDfa::try_from_patterns$")
+    ctx.analysed_fn(cp)
+    ex, paths = run_fn(cp, F, BaseModel(), max_paths=5000)
+    n = 0
+    for p in paths:
+        las = p.calls(r"CompiledLookahead::try_from_lookahead$")
+        for al in p.calls(r"CompiledDfa::add_lookahead$"):
+            n += 1
+            t, l = al[3][1], al[3][2]
+            ts = S.fstr(t)
+            items = set(re.findall(r"item@bb\d+", ts))
+            src = [c for c in las if l == ("field", ("downcast", c[4], "Ok"), "0")]
+            ok_t = "Pattern::terminal_id" in ts and len(items) == 1
+            ok_l = False
+            why = "the attached lookahead %s is not the result of compiling this pattern's lookahead on this path" % S.fstr(l)[:80]
+            if src:
+                a0 = S.fstr(src[-1][3][0])
+                ok_l = "Pattern::lookahead" in a0 and set(re.findall(r"item@bb\d+", a0)) == items
+                why = "compiled from %s" % a0[:80]
+            ob("mode:lookahead-attached-to-its-own-pattern", ok_t and ok_l, "add_lookahead(%s, ..): %s" % (ts[:60], why), cp.loc())
+    for r in rules:
+        ctx.floor(r, "add_lookahead calls on paths of CompiledDfa::try_from_patterns", n, 1)
+    al = F.fn(r"CompiledDfa::add_lookahead$")
+    ctx.analysed_fn(al)
+    ex2, ps = run_fn(al, F, BaseModel())
+    m = 0
+    for p in ret_paths(ps):
+        ins = p.calls(r"HashMap.*::insert$")
+        m += 1
+        ok = len(ins) == 1 and S.fstr(ins[0][3][1]) == "terminal_id" and S.fstr(ins[0][3][2]) == "lookahead" and "lookaheads" in S.fstr(ex2.deref_val(p, ins[0][3][0]) if ins[0][3][0][0] == "ref" else ins[0][3][0])
+        ob("add_lookahead-stores-(terminal, lookahead)", ok, "insert(%s)" % (", ".join(S.fstr(a)[:40] for a in ins[0][3]) if ins else None), al.loc())
+    for r in rules:
+        ctx.floor(r, "paths of add_lookahead", m, 1)
